@@ -27,7 +27,7 @@ NewClient(lg, v111, http) ==
 InitO(tr) ==
     [tr |-> tr, conns |-> <<>>, ann |-> <<>>, norm |-> <<>>, keyn |-> <<>>,
      mqsubs |-> {}, mqpend |-> <<>>, handed |-> <<>>, window |-> {},
-     refetch |-> <<>>, ctrig |-> <<>>, resets |-> <<>>, thr |-> <<>>, stop |-> [l |-> 0, cause |-> "", open |-> {}], down |-> FALSE, hadStop |-> FALSE, final |-> FALSE, resetObl |-> {}, keyq |-> <<>>, qev |-> <<>>, ce |-> <<>>, sq |-> <<>>, rq |-> <<>>, sa |-> <<>>, rst |-> <<>>, csub |-> <<>>]
+     refetch |-> <<>>, ctrig |-> <<>>, resets |-> <<>>, thr |-> <<>>, stop |-> [l |-> 0, cause |-> "", open |-> {}], down |-> FALSE, hadStop |-> FALSE, final |-> FALSE, resetObl |-> {}, keyq |-> <<>>, qev |-> <<>>, ce |-> <<>>, sq |-> <<>>, rq |-> <<>>, sa |-> <<>>, rst |-> <<>>, csub |-> <<>>, refRp |-> <<>>, deadRp |-> {}]
 
 Short(s) == IF Len(s) > 48 THEN SubSeq(s, 1, 24) \o "...(" \o ToString(Len(s)) \o " characters)" ELSE s
 
@@ -427,12 +427,12 @@ H_note0(r) ==
                             THEN {V("C19", "throttle " \o r.thr \o ": " \o r.kind \o " left " \o ToString(<<r.running, r.qlen, went>>) \o ", Throttle.tla says " \o ToString(<<exp.running, exp.qlen, exp.go>>), "")} ELSE {})
             IN Res([o EXCEPT !.thr = Put(o.thr, r.thr, [limit |-> r.limit, running |-> r.running, qlen |-> r.qlen])], vs)
       [] r.kind = "resetres" ->
-            \* ResSub.tla OneRefetch: a resource is never re-fetched while a re-fetch of it is outstanding
-            Res([o EXCEPT !.refetch = Put(o.refetch, r.key, Get(o.refetch, r.key, 0) + 1)],
-                (IF Get(o.refetch, r.key, 0) > 0 \/ \E x \in DOMAIN o.mqpend : o.mqpend[x].t = "get" /\ o.mqpend[x].key = r.key /\ o.mqpend[x].refetch
-                THEN {V("C12", "re-fetch of " \o r.key \o " started while an earlier re-fetch is outstanding", "")} ELSE {})
-                \cup (IF "matched" \in DOMAIN r /\ ~r.matched
-                      THEN {V("C12", "re-fetch of " \o r.key \o " although no system reset lists a pattern matching its name", "")} ELSE {}))
+            \* the resource object that starts the re-fetch is remembered for the get request that follows (one re-fetch at a
+            \* time per object is checked by ResSubTrace)
+            Res([o EXCEPT !.refetch = Put(o.refetch, r.key, Get(o.refetch, r.key, 0) + 1),
+                          !.refRp = IF "rp" \in DOMAIN r THEN Put(@, r.key, Append(Get(@, r.key, <<>>), r.rp)) ELSE @],
+                IF "matched" \in DOMAIN r /\ ~r.matched
+                THEN {V("C12", "re-fetch of " \o r.key \o " although no system reset lists a pattern matching its name", "")} ELSE {})
       [] r.kind \in CENotes /\ ~o.hadStop /\ o.stop.l = 0 ->
             \* C09: the cache entry follows CacheEntry.tla in every critical section
             LET st == CEStep(Get(o.ce, r.n, CENew), r)
@@ -444,6 +444,7 @@ H_note0(r) ==
                 RemOne(sq, c) == IF \E i \in DOMAIN sq : sq[i] = c
                                  THEN LET i0 == CHOOSE i \in DOMAIN sq : sq[i] = c IN [j \in 1..(Len(sq) - 1) |-> IF j < i0 THEN sq[j] ELSE sq[j + 1]]
                                  ELSE sq
+                dead2 == IF r.kind = "cacheGetErr" /\ "rp" \in DOMAIN r THEN o.deadRp \cup {r.rp} ELSE o.deadRp
                 cs2 == CASE r.kind = "cacheAddSub" /\ r.state # 1 -> Put(o.csub, r.key, Append(Get(o.csub, r.key, <<>>), r.c))
                          [] r.kind = "cacheUnsub" /\ r.removed /\ "c" \in DOMAIN r -> Put(o.csub, r.key, RemOne(Get(o.csub, r.key, <<>>), r.c))
                          [] r.kind \in {"cacheDelete", "cacheGetErr"} -> Put(o.csub, r.key, <<>>)
@@ -452,7 +453,7 @@ H_note0(r) ==
                          [] OTHER -> o.csub
                 rq2 == IF r.kind = "cacheEvict" /\ r.done /\ "ep" \in DOMAIN r /\ r.ep \in DOMAIN o.rq
                        THEN Put(o.rq, r.ep, [o.rq[r.ep] EXCEPT !.x = [@ EXCEPT !.ql = 0]]) ELSE o.rq
-            IN Res([o EXCEPT !.ce = Put(@, r.n, st.x), !.rst = rst2, !.rq = rq2, !.csub = cs2], {V("C09", "cache entry " \o Short(r.n) \o ": " \o m, "") : m \in st.errs})
+            IN Res([o EXCEPT !.ce = Put(@, r.n, st.x), !.rst = rst2, !.rq = rq2, !.csub = cs2, !.deadRp = dead2], {V("C09", "cache entry " \o Short(r.n) \o ": " \o m, "") : m \in st.errs})
       [] r.kind \in RQNotes /\ "ep" \in DOMAIN r /\ ~o.hadStop /\ o.stop.l = 0 ->
             \* C13 / C15: the resource's work queue and its query-event lock follow ResQueue.tla (per entry object:
             \* an evicted entry's worker may still run after a new entry of the same name exists)
@@ -549,8 +550,11 @@ H_mreq(r) ==
                          ELSE {V("C05", "call " \o r.subj \o " forwarded without a valid grant for the method: " \o ToString(g), IF "kf" \in sts THEN "KF-R" ELSE "")}
                  ELSE {}
         isRefetch == r.t = "get" /\ Get(o.refetch, r.key, 0) > 0
-        o1 == [o EXCEPT !.mqpend = Put(o.mqpend, r.k, [t |-> r.t, n |-> r.n, key |-> r.key, c |-> r.c, refetch |-> isRefetch, l |-> l, tok |-> r.tok]),
+        rpq == Get(o.refRp, r.key, <<>>)
+        rp0 == IF isRefetch /\ rpq # <<>> THEN Head(rpq) ELSE 0
+        o1 == [o EXCEPT !.mqpend = Put(o.mqpend, r.k, [t |-> r.t, n |-> r.n, key |-> r.key, c |-> r.c, refetch |-> isRefetch, l |-> l, tok |-> r.tok, rp |-> rp0]),
                         !.refetch = IF isRefetch THEN Put(o.refetch, r.key, o.refetch[r.key] - 1) ELSE o.refetch,
+                        !.refRp = IF isRefetch /\ rpq # <<>> THEN Put(@, r.key, Tail(rpq)) ELSE @,
                         !.resetObl = IF r.t = "get" THEN {x \in @ : x.key # r.key} ELSE @]
         \* an access request answers a pending re-check of this connection
         o2 == IF r.t = "access" /\ known
@@ -606,7 +610,10 @@ H_mres(r) ==
     LET req == o.mqpend[r.k]
         o1 == [o EXCEPT !.mqpend = Del(o.mqpend, r.k)]
     IN CASE r.t = "get" ->
-              LET a2 == AnnGet(AnnOf(o.ann, r.nkey), r, req.refetch)
+              LET \* the answer to a re-fetch started by a resource object whose initial get failed meanwhile is dropped by the
+                  \* gateway (a new object may serve the key by now): it announces nothing
+                  deadRef == req.refetch /\ req.rp \in o.deadRp
+                  a2 == IF deadRef THEN AnnOf(o.ann, r.nkey) ELSE AnnGet(AnnOf(o.ann, r.nkey), r, req.refetch)
                   \* only a resource answer tells the normalized query; an error answer (e.g. to a re-fetch of the
                   \* un-normalized query issued before the first answer arrived) leaves the mapping alone
                   isRes == r.kind \in {"m", "c"}
